@@ -177,15 +177,18 @@ def point_pool(rng, count, d):
 
 def gen_history(rng, tier, family="default"):
     """exact rational arithmetic on float64-derived entries costs ~10 ms per operation at N=6, so the
-    total number of training ROWS after all updates is capped (5 quick / 7 thorough; multitask: rows = points x tasks,
+    total number of training ROWS after all updates is capped (5 in both tiers; multitask: rows = points x tasks,
     capped at 6 / 8).
     family: default (DefaultPredictionStrategy, single output) | mt (multitask kernel + likelihood) | kiss (KISS-GP:
     InterpolatedPredictionStrategy / WISKI update)"""
     thorough = tier != "quick"
-    nmax = 7 if thorough else 5
+    # rows are capped at the quick tier's value in BOTH tiers: the exact rational model re-inverts the bordered matrix at
+    # every fantasy step and 7-row histories cost ~13 min per shard of cases (measured) - the thorough tier is deeper in
+    # the number of histories, fantasy batch sizes and steps, not in matrix size
+    nmax = 5
     mt = MT_TASKS if family == "mt" else 0
     if mt:
-        nmax = 4 if thorough else 3
+        nmax = 3
     d = rng.choice([1, 2]) if family != "kiss" else 1
     b = rng.choice([(), (), (2,)]) if family != "kiss" else ()
     depth = rng.choice([1, 1, 2, 2, 3]) if not mt else rng.choice([1, 1, 2])
